@@ -321,7 +321,7 @@ namespace
       int nops = 1 + int(sim::cfg_weighted("fault_ops", {5, 2, 1}));
       for(int k = 0; k < nops; ++k)
       {
-        int kind = int(sim::cfg_weighted(("fault_kind" + std::to_string(k)).c_str(), {4, 2, 1, 1, 3, 3, 3, 2, 2, 2, 2, 3, 2, 3, 2, 2, 1}));
+        int kind = int(sim::cfg_weighted(("fault_kind" + std::to_string(k)).c_str(), {4, 2, 1, 1, 3, 3, 3, 2, 2, 2, 2, 3, 2, 3, 2, 2, 1, 2}));
         int bias = int(sim::cfg_int(("fault_bias" + std::to_string(k)).c_str(), 0, 1));
         switch(kind)
         {
@@ -342,6 +342,7 @@ namespace
         case 14: close_element(bf, log); break;
         case 15: part_drop_dimension(bf, log); break;
         case 16: part_make_empty(bf, log); break;
+        case 17: chart_index_out_of_range(bf, log); break;
         }
       }
       size_t eof_limit = size_t(-1);
@@ -672,6 +673,44 @@ namespace
       log.ops += "INDEX_OOR(" + std::to_string(bad) + ">=" + std::to_string(nv) + ") ";
       log.must_reject = true; log.why += "a topology record refers to a vertex index beyond the declared vertex count; ";
       sim::count_fault("INDEX_OOR");
+    }
+
+    // a triangle of a SurfaceMesh chart names a vertex beyond the chart's declared vertex count
+    static void chart_index_out_of_range(Bytes& b, simfs::FaultLog& log)
+    {
+      std::string s(b.begin(), b.end());
+      std::vector<size_t> charts;
+      for(size_t p = s.find("<SurfaceMesh "); p != std::string::npos; p = s.find("<SurfaceMesh ", p + 1)) charts.push_back(p);
+      if(charts.empty()) return;
+      const size_t p = charts[simfs::pick(charts.size(), "coor_chart")];
+      size_t q = s.find("verts=\"", p);
+      size_t tb = s.find("<Triangles>", p), te = s.find("</Triangles>", p), ce = s.find("</SurfaceMesh>", p);
+      if(q == std::string::npos || tb == std::string::npos || te == std::string::npos || ce == std::string::npos || q > tb || te > ce) return;
+      const long nv = atol(s.c_str() + q + 7);
+      // data lines of the block
+      std::vector<std::pair<size_t, size_t>> lines;
+      size_t a = s.find('\n', tb);
+      while(a != std::string::npos && a + 1 < te)
+      {
+        size_t e = s.find('\n', a + 1);
+        if(e == std::string::npos || e > te) break;
+        bool digit = false; for(size_t i = a + 1; i < e; ++i) digit = digit || isdigit((unsigned char)s[i]);
+        if(digit) lines.emplace_back(a + 1, e);
+        a = e;
+      }
+      if(lines.empty() || nv <= 0) return;
+      auto ln = lines[simfs::pick(lines.size(), "coor_line")];
+      std::string t = s.substr(ln.first, ln.second - ln.first);
+      size_t e = t.size(); while(e > 0 && !isdigit((unsigned char)t[e - 1])) --e;
+      size_t st = e; while(st > 0 && isdigit((unsigned char)t[st - 1])) --st;
+      if(st == e) return;
+      const long bad = nv + long(simfs::pick(5, "coor_delta"));
+      t.replace(st, e - st, std::to_string(bad));
+      s.replace(ln.first, ln.second - ln.first, t);
+      b.assign(s.begin(), s.end());
+      log.ops += "CHART_INDEX_OOR(" + std::to_string(bad) + ">=" + std::to_string(nv) + ") ";
+      log.must_reject = true; log.why += "a triangle of a SurfaceMesh chart refers to a vertex index beyond the chart's declared vertex count; ";
+      sim::count_fault("CHART_INDEX_OOR");
     }
 
     // rewrite the dim attribute of one <Topology>/<Mapping> tag to another dimension (0 .. shape_dim+2)
